@@ -30,6 +30,9 @@ pub fn small_doc() -> Vec<u8> {
         // recursion guard's error when run alone; with other loads in flight the guard must still see this thread's own entries
         (9, dict(vec![("Type", name("Pages")), ("Parent", rf(9)), ("Kids", arr(vec![rf(10)])), ("Count", Obj::Int(1))])),
         (10, dict(vec![("Type", name("Page")), ("Parent", rf(9))])),
+        // two nodes that name each other as parent (an eager two-object cycle): alone, either load ends in the recursion error
+        (11, dict(vec![("Type", name("Pages")), ("Parent", rf(12)), ("Kids", arr(vec![])), ("Count", Obj::Int(0))])),
+        (12, dict(vec![("Type", name("Pages")), ("Parent", rf(11)), ("Kids", arr(vec![])), ("Count", Obj::Int(0))])),
     ];
     mkpdf::simple_doc(&objs, 1, vec![])
 }
@@ -131,6 +134,7 @@ fn shapes(tier: Tier) -> Vec<(String, Vec<Vec<Call>>)> {
         ("ordinary-vs-cyclic-parent".into(), vec![vec![(7, 3)], vec![(10, 3)]]),
         ("ordinary-vs-cyclic-node".into(), vec![vec![(7, 3)], vec![(9, 3)]]),
         ("cyclic-parent-vs-cyclic-parent".into(), vec![vec![(10, 3)], vec![(9, 3)]]),
+        ("two-cycle-one-member-each".into(), vec![vec![(11, 3)], vec![(12, 3)]]),
     ];
     if tier == Tier::Thorough {
         v.push(("three-threads-mixed".into(), vec![vec![(0, 12), (5, 10)], vec![(2, 12), (6, 8)], vec![(5, 1), (1, 12)]]));
